@@ -12,7 +12,17 @@
 (*  ev = "step"     one per layer: i (0-based), n, z0, z1, dz, H, g, T,    *)
 (*                  mu, Lr, rho, P, rad, gm, kB  -- taken from the exposed *)
 (*                  per-layer profiles at index i (alignment)              *)
+(*                  route ("model": the arrays a forward model exposes --   *)
+(*                  possibly AFTER it was evaluated; "planet": what         *)
+(*                  Planet.calculate_scale_properties returned), u: the     *)
+(*                  length-unit factor of the returned numbers (1 for the   *)
+(*                  model); rad, gm, kB are SI, the spec converts them      *)
+(*                  (HydroStepRelUnit)                                      *)
 (*  ev = "profiles" n, lens: record name |-> entries along the layer axis  *)
+(*  ev = "chem"     n, tab[layer][declared gas] (the table handed to a file *)
+(*                  / array chemistry), col[declared gas] (its position in  *)
+(*                  the exposed gas list), mix[gas][layer] (exposed), w[gas]*)
+(*                  (molecular masses), mu[layer] (exposed)                 *)
 (*                                                                         *)
 (* Numbers are observations <<m, e>> = m * 10^e with 9-digit mantissas     *)
 (* (m < 0: NaN / Inf / negative / entry absent) and all relations of       *)
@@ -51,27 +61,60 @@ LevelsFails(e) ==
 
 StepFails(e) ==
     LET Same(a, b) == DClose(a, b, e.ppb)
-        pos  == /\ \A f \in {e.z1, e.dz, e.H, e.g, e.T, e.mu, e.Lr, e.rho, e.P, e.rad, e.gm, e.kB} :
+        pos  == /\ \A f \in {e.z1, e.dz, e.H, e.g, e.T, e.mu, e.Lr, e.rad, e.gm, e.kB, e.u} :
                        ObsPos(f) /\ ObsSane(f)
+                /\ e.route = "model" => \A f \in {e.rho, e.P} : ObsPos(f) /\ ObsSane(f)
                 /\ ObsOk(e.z0) /\ ObsSane(e.z0)
     IN  IF ~pos THEN {"step_entries_present_and_positive"}
         ELSE LET z0 == DOf(e.z0)  z1 == DOf(e.z1)  dz == DOf(e.dz)  H == DOf(e.H)  g == DOf(e.g)
                  T == DOf(e.T)  mu == DOf(e.mu)  Lr == DOf(e.Lr)  rad == DOf(e.rad)  gm == DOf(e.gm)
                  kB == DOf(e.kB)
+                 u == DOf(e.u)
+                 radu == DMul(rad, u)  gmu == DMul(gm, DMul(u, DMul(u, u)))  kBu == DMul(kB, DMul(u, u))
              IN  (IF (e.i = 0) => DIsZero(z0) THEN {} ELSE {"altitude_zero_at_surface"})
                  \cup (IF DLt(z0, z1) THEN {} ELSE {"altitude_strictly_increasing"})
                  \cup (IF AdditiveRel(DAdd, Same, z0, z1, dz) THEN {} ELSE {"dz_is_level_difference"})
                  \cup (IF ThicknessRel(DMul, Same, dz, H, Lr) THEN {} ELSE {"dz_is_H_ln_pressure_ratio"})
-                 \cup (IF ScaleHeightRel(DMul, Same, H, g, T, mu, kB) THEN {} ELSE {"H_is_kT_over_mu_g"})
-                 \cup (IF InverseSquareRel(DMul, DAdd, Same, g, z0, rad, gm) THEN {} ELSE {"g_inverse_square"})
-                 \cup (IF DensityRel(DMul, Same, DOf(e.rho), DOf(e.P), T, kB) THEN {} ELSE {"density_ideal_gas"})
+                 \* HydroStepRelUnit clause by clause: scale height and gravity against the constants
+                 \* expressed in the length unit of the route (R u, GM u^3, k_B u^2)
+                 \cup (IF ScaleHeightRel(DMul, Same, H, g, T, mu, kBu) THEN {} ELSE {"H_is_kT_over_mu_g"})
+                 \cup (IF InverseSquareRel(DMul, DAdd, Same, g, z0, radu, gmu) THEN {} ELSE {"g_inverse_square"})
+                 \cup (IF e.route = "model" => DensityRel(DMul, Same, DOf(e.rho), DOf(e.P), T, kB)
+                       THEN {} ELSE {"density_ideal_gas"})
 
-\* store_profiles() writes every per-layer profile except the molecular weight
-Need(e) == IF e.src = "store_profiles" THEN LayerProfiles \ {"mu_profile"} ELSE LayerProfiles
+\* store_profiles() writes every per-layer profile except the molecular weight;
+\* Planet.calculate_scale_properties returns z (n+1), H, g, dz (n)
+Need(e) == IF e.src = "store_profiles" THEN LayerProfiles \ {"mu_profile"}
+           ELSE IF e.src = "calculate_scale_properties" THEN {"scaleheight_profile", "gravity_profile"}
+           ELSE LayerProfiles
 ProfilesFails(e) ==
     IF OneEntryPerLayerRec(e.n, e.lens, Need(e)) THEN {} ELSE {"one_entry_per_layer"}
 
+\* chemistry: exposed mixing ratios are the columns of the table, layer by layer; mu of layer k is
+\* the weighted mean of the mixing ratios exposed for layer k
+ObsSeqOk(sq) == \A k \in 1..Len(sq) : ObsOk(sq[k]) /\ ObsSane(sq[k])
+ChemFails(e) ==
+    LET Same(a, b) == DClose(a, b, e.ppb)
+        ng   == Len(e.mix)
+        nd   == Len(e.col)
+        ok0  == /\ ng >= 1 /\ Len(e.w) = ng /\ Len(e.mu) = e.n /\ Len(e.tab) = e.n
+                /\ \A gs \in 1..ng : Len(e.mix[gs]) = e.n /\ ObsSeqOk(e.mix[gs])
+                /\ \A k \in 1..e.n : Len(e.tab[k]) = nd /\ ObsSeqOk(e.tab[k])
+                /\ AllPos(e.w) /\ AllPos(e.mu)
+                /\ \A j \in 1..nd : e.col[j] \in 1..ng
+    IN  IF ~DistinctTable(e.tab) THEN {"input_table_not_distinct"}      \* harness fault, not a verdict
+        ELSE IF ~ok0 THEN {"chem_wellformed"}
+        ELSE LET mix  == [gs \in 1..ng |-> DSeq(e.mix[gs])]
+                 decl == [j \in 1..nd |-> mix[e.col[j]]]
+                 tab  == [k \in 1..e.n |-> DSeq(e.tab[k])]
+                 w    == DSeq(e.w)
+                 mu   == DSeq(e.mu)
+             IN  (IF nd = 0 \/ MixAlignedRel(Same, decl, tab, e.n) THEN {} ELSE {"mixing_ratios_aligned_with_layers"})
+                 \cup (IF \A k \in 1..e.n : WeightedMeanRel(DMul, DAdd, Same, DInt(0), mu[k], mix, k, w)
+                       THEN {} ELSE {"mu_is_weighted_mean_of_layer"})
+
 Fails(e) == IF e.ev = "levels" THEN LevelsFails(e)
+            ELSE IF e.ev = "chem" THEN ChemFails(e)
             ELSE IF e.ev = "step" THEN StepFails(e)
             ELSE IF e.ev = "profiles" THEN ProfilesFails(e)
             ELSE {"unknown_event"}
